@@ -1,0 +1,20 @@
+//go:build verif
+
+// Verification hook for property C19, registry cases (add-only, compiled only with -tags verif).
+package event
+
+import (
+	"github.com/AliceO2Group/Control/common/monitoring"
+	"github.com/segmentio/kafka-go"
+)
+
+// VerifC19SetWrite replaces the unexported write function of a writer that somebody else built
+// with NewWriterWithTopic (the per-topic registry in core/the), the way VerifC19NewWriter does for
+// its own: every batch goes to the caller instead of to a broker.  Must be called before anything
+// is published through w (the writing loop reads the field only after a message went through
+// the channel and the FIFO, which synchronise with this assignment).
+func VerifC19SetWrite(w *KafkaWriter, write func([]kafka.Message)) {
+	w.writeFunction = func(messages []kafka.Message, _ *monitoring.Metric) {
+		write(messages)
+	}
+}
